@@ -740,3 +740,111 @@ def r01f(R):
             'arrives the elapsed time already exceeds the cue time, so the '
             'delays that follow return at once and the commands go out back '
             'to back', path=path_text(q) if q else None)
+
+
+# ---------------------------------------------------------------- R01.g
+def _emit_nodes_with(A, f, op, argtest=None):
+    """CFG nodes of f emitting op-code `op` whose arguments satisfy argtest."""
+    out = []
+    for call, ops in A.emission_sites(f):
+        for o, args in ops:
+            if o == op and (argtest is None or argtest(args)):
+                for n in A.node_of_call(f, call):
+                    if n not in out:
+                        out.append(n)
+    return out
+
+
+def _folds_to(A, f, e, enum, member):
+    v = A.try_fold(e, f)
+    return isinstance(v, EnumVal) and v.enum == enum and v.member == member
+
+
+@rule('R01.g', ('C01', 'C11', 'C02'), 'every statement emits the instruction '
+      'that carries it out, on every successful path', floor=10,
+      decides='each wait / pause / get / define / time-at statement and each '
+              'call used as a value takes effect: none is accepted and then '
+              'compiled to nothing')
+def r01g(R):
+    A = R.A
+
+    def must(f, what, nodes, starts=None, detail=''):
+        cfg = A.cfg(f)
+        p = A.path_skipping(f, starts or [cfg.entry], nodes, after=starts is not None) \
+            if nodes else []
+        R.check(f, what, bool(nodes) and p is None,
+                '%s can succeed without emitting %s: the statement is accepted '
+                'and does nothing%s' % (f.short, what, detail),
+                path=path_text(p) if p else None)
+        return nodes
+    f = A.func(PARSE, 'Parser._wait')
+    must(f, 'WAIT', _emit_nodes_with(A, f, 'WAIT'))
+    f = A.func(PARSE, 'Parser._pause')
+    must(f, 'PAUSE', _emit_nodes_with(A, f, 'PAUSE'))
+    # get <light>: the name goes from RESULT to NAME, then GET_COLOR
+    f = A.func(PARSE, 'Parser._get_color')
+    mv = must(f, 'MOVE RESULT -> NAME', _emit_nodes_with(
+        A, f, 'MOVE', lambda a: len(a) == 2
+        and _folds_to(A, f, a[0], 'Register', 'RESULT')
+        and _folds_to(A, f, a[1], 'Register', 'NAME')))
+    gc = must(f, 'GET_COLOR', _emit_nodes_with(A, f, 'GET_COLOR'))
+    if mv and gc:
+        cfg = A.cfg(f)
+        q = cfg.find_path([cfg.entry], lambda n: n in gc, avoid=mv)
+        R.check(f, 'MOVE RESULT -> NAME before GET_COLOR', q is None,
+                'GET_COLOR can be reached before the light\'s name is in the '
+                'name register', path=path_text(q) if q else None)
+    f = A.func(PARSE, 'Parser._macro_definition')
+    must(f, 'CONSTANT', _emit_nodes_with(A, f, 'CONSTANT'))
+    f = A.func(PARSE, 'Parser._string_to_reg')
+    must(f, 'MOVEQ <string> -> <register>', _emit_nodes_with(
+        A, f, 'MOVEQ', lambda a: len(a) == 2 and norm(a[1]) in f.params))
+    # time at P1 or P2 ...: INIT for the first, UNION for every further one
+    f = A.func(PARSE, 'Parser._process_time_patterns')
+    cfg = A.cfg(f)
+    init = must(f, 'TIME_PATTERN INIT', _emit_nodes_with(
+        A, f, 'TIME_PATTERN', lambda a: a and _folds_to(A, f, a[0], 'SetOp', 'INIT')))
+    union = _emit_nodes_with(
+        A, f, 'TIME_PATTERN', lambda a: a and _folds_to(A, f, a[0], 'SetOp', 'UNION'))
+    ors = [n for n in cfg.nodes if n.kind == 'cond' and any(
+        isinstance(v, EnumVal) and v.member == 'OR'
+        for c in n.calls() for v in [A.try_fold(x, f) for x in c.args])]
+    ok = bool(union and ors)
+    p = None
+    if ok:
+        # from "another `or` follows" back to the loop test or on to success
+        starts = [m for n in ors for m, lab in n.succs if lab is True]
+        p = cfg.find_path(starts, lambda n: n in ors or (
+            n.is_return and A.ret_class(f, n)[0] != 'fail'), avoid=union)
+        ok = p is None
+    R.check(f, 'TIME_PATTERN UNION for every alternative after `or`', ok,
+            'an alternative after `or` is parsed but no UNION instruction is '
+            'emitted for it: the script waits for the first pattern only',
+            path=path_text(p) if p else None)
+    if init and union:
+        q = cfg.find_path([cfg.entry], lambda n: n in union, avoid=init)
+        R.check(f, 'INIT before the first UNION', q is None,
+                'a UNION can be emitted before the INIT that starts the list')
+    # a call used as a value: the result register goes where the value is
+    # wanted (evaluated per destination)
+    f = A.func(PARSE, 'Parser._rvalue_fn_call')
+    dest = f.params[1] if len(f.params) > 1 else 'dest'
+    for label, value, want in (
+            ('PUSH', EnumVal('OpCode', 'PUSH'), 'push'),
+            ('a register', EnumVal('Register', 'HUE'), 'move'),
+            ('RESULT', EnumVal('Register', 'RESULT'), 'none')):
+        nodes = A.nodes_under(f, {dest: value})
+        pushes = [n for n in nodes for c in n.calls()
+                  if isinstance(c.func, ast.Attribute) and c.func.attr == 'push'
+                  and c.args and _folds_to(A, f, c.args[0], 'Register', 'RESULT')]
+        moves = [n for n in nodes for c2, ops in A.emission_sites(f)
+                 for o, a in ops if o == 'MOVE' and len(a) == 2
+                 and _folds_to(A, f, a[0], 'Register', 'RESULT')
+                 and norm(a[1]) == dest and n in A.node_of_call(f, c2)]
+        got = 'push' if pushes and not moves else 'move' if moves and not pushes \
+            else 'none' if not pushes and not moves else 'both'
+        R.check(f, 'call as a value, destination %s: %s' % (label, got),
+                got == want,
+                'the value returned by a call used as an operand / right-hand '
+                'side is not delivered (destination %s: expected %s, found %s)'
+                % (label, want, got))
